@@ -19,8 +19,8 @@ ASSUMPTIONS = ['ties at a pruning boundary (k-th vs (k+1)-th candidate within 1e
                'the reference search re-ranks only on frames that offer at least one candidate symbol, as the statement\'s "per-frame symbol pre-selection" implies for frames with none',
                'brute force over all alignments only for C^T <= 4096']
 N = {'quick': 3000, 'thorough': 200000}
-CLASSES = ['rand', 'peaky', 'onehot', 'zeros', 'allpruned', 'repeats', 'const', 'twolevel', 'unpruned_small', 'unnormalised', 'threshold']
-REQUIRED = ['reused_buffers_checked', 'decoders_with_insertion_bonus_and_no_lm', 'float32_large_alphabet_guard_checked', 'long_lived_decoder_reused', 'alphabets_with_white_space', 'threshold_symbols', 'bestfirst_selector_decodes', 'decodes', 'overcount_checked', 'beam_compared', 'unpruned_compared', 'frames_monitored', 'frames_pruned', 'joins_observed', 'guard_checked']
+CLASSES = ['rand', 'peaky', 'onehot', 'zeros', 'allpruned', 'repeats', 'const', 'twolevel', 'unpruned_small', 'unnormalised', 'threshold', 'index_wrap']
+REQUIRED = ['call_tolerance_checked', 'reused_buffers_checked', 'decoders_with_insertion_bonus_and_no_lm', 'float32_large_alphabet_guard_checked', 'long_lived_decoder_reused', 'alphabets_with_white_space', 'threshold_symbols', 'bestfirst_selector_decodes', 'decodes', 'overcount_checked', 'beam_compared', 'unpruned_compared', 'frames_monitored', 'frames_pruned', 'joins_observed', 'guard_checked']
 EXHAUSTIVE_KEY = 'exhaustive_matrices'
 EXHAUSTIVE_NOTE = 'all matrices with two-level rows (weights in {1,2}), C = 3, T <= 2 (quick) / T <= 3 (thorough), every k in {1,2,3,50}, both selectors'
 KS = [1, 2, 3, 5, 8, 50]
@@ -144,16 +144,45 @@ def gen(rng, i, ctx):
     if cls == 'threshold':
         default_sel = True
         k = int(rng.choice([3, 8, 50]))
+    if cls == 'index_wrap':
+        # alphabets just beyond 256 / 65536 classes in which two symbols whose indices are congruent modulo that size both occur: after two frames the beam holds
+        # [d], [s1] and [s2, d] while [s2] has been pruned, so nothing may be merged into [s2, d] in the third frame
+        M = 65536 if (i // len(CLASSES)) % 6 == 0 else 256
+        NB = M + int(rng.integers(3, 12))
+        s1 = int(rng.integers(0, 3))
+        s2 = s1 + M
+        d = int(rng.integers(3, 8)) if rng.random() < 0.7 else M + 2
+        p0, a = float(rng.uniform(0.55, 0.7)), float(rng.uniform(0.46, 0.53))
+        b = float(rng.uniform(0.40, min(a - 0.02, 0.97 - a)))
+        T = 3 + int(rng.integers(0, 3))
+        p = np.zeros((T, NB + 1))
+        p[0, NB], p[0, s2] = p0, 1 - p0
+        p[1, d], p[1, s1], p[1, NB] = a, b, 1 - a - b
+        for t in range(2, T):
+            q = float(rng.uniform(0.3, 0.7))
+            p[t, d if rng.random() < 0.7 else s1], p[t, NB] = q, 1 - q
+        with np.errstate(divide='ignore'):
+            lp = np.log(p)
+        return {'cls': cls, 'lp': lp, 'k': int(rng.choice([3, 3, 4])), 'default_selector': bool(rng.random() < 0.5)}
     lp = make_matrix(rng, kind, T, C)
     case = {'cls': cls, 'lp': lp, 'k': k, 'default_selector': default_sel}
     if cls == 'unnormalised':
-        how = str(rng.choice(['scaled', 'raw', 'one_row', 'slightly', 'float32_large_alphabet']))
+        how = str(rng.choice(['scaled', 'raw', 'one_row', 'slightly', 'float32_large_alphabet', 'call_tolerance']))
         if how == 'float32_large_alphabet':
             # single-precision network output over a large alphabet, one frame off by a few 1e-5
             p = rng.random((int(rng.integers(1, 5)), int(rng.choice([300, 1000])))) ** 8 + 1e-9
             lp32 = np.log(p / p.sum(1, keepdims=True))
             lp32[int(rng.integers(0, lp32.shape[0]))] += float(rng.choice([6e-5, 4e-5, -5e-5]))
             return {'cls': cls, 'lp': lp32.astype(np.float32), 'k': 2, 'default_selector': True, 'how': how}
+        if how == 'call_tolerance':
+            # the caller passes its own tolerance; one row sums to 1 +- 1.1..1.3 tolerances (must be rejected) or to within half a tolerance (must be decoded)
+            lp = lp.copy()
+            lp[~np.isfinite(lp)] = -30.0
+            lp = lp - np.logaddexp.reduce(lp, axis=1, keepdims=True)
+            tol = float(rng.choice([0.5, 0.1, 0.01]))
+            f = float(rng.choice([1.1, 1.3, -1.1, -1.3, 0.4, -0.4]))
+            lp[int(rng.integers(0, T))] += np.log1p(f * tol)
+            return {'cls': cls, 'lp': lp, 'k': k, 'default_selector': True, 'how': how, 'tol': tol, 'factor': f}
         lp = lp.copy()
         lp[~np.isfinite(lp)] = -30.0
         if how == 'scaled':
@@ -213,7 +242,7 @@ def check_frames(rec, k, mon, info):
 def decode_and_check(lp, k, default_sel, mon, ctx, info, compare_beam=True):
     D = ctx.D
     C = lp.shape[1]
-    letters = [chr(0x61 + c) for c in range(C - 1)]
+    letters = [chr((0x61 if C < 200 else 0x20000) + c) for c in range(C - 1)]
     # real alphabets contain white space: as the first or the last symbol in two thirds of the decodes
     alpha = (int(lp.shape[0]) + C) % 3
     if alpha == 1:
@@ -283,8 +312,9 @@ def decode_and_check(lp, k, default_sel, mon, ctx, info, compare_beam=True):
     if len(hyps) > k:
         mon.violation('at-most-k-hypotheses', dict(info, n=len(hyps)))
     got = {}
+    index_of = {ch: n for n, ch in enumerate(letters)}
     for tr, sc in hyps:
-        seq = tuple(letters.index(ch) for ch in tr)
+        seq = tuple(index_of[ch] for ch in tr)
         got[seq] = sc
         true = ctc.ctc_logprob(lp, list(seq))
         mon.count('overcount_checked')
@@ -314,6 +344,19 @@ def check(case, mon, ctx):
         C = lp.shape[1]
         letters = [chr(0x61 + c) for c in range(C - 1)]
         dev = float(np.max(np.abs(np.exp(lp.astype(np.float64)).sum(axis=1) - 1)))
+        if case['how'] == 'call_tolerance':
+            tol = case['tol']
+            for dec, kw in ((D.CTCPrefixLogRawNumpyDecoder(letters + [D.BLANK_SYMBOL], k=k), {}), (D.GreedyDecoder(letters + [D.BLANK_SYMBOL]), {})):
+                mon.count('call_tolerance_checked')
+                try:
+                    dec(lp.copy(), max_unnormalization=tol)
+                    if dev > 1.05 * tol:
+                        mon.violation('unnormalised-rejected', {'decoder': type(dec).__name__, 'deviation': dev, 'tolerance_passed_by_the_caller': tol, 'how': case['how']})
+                except ValueError as e:
+                    if dev < 0.5 * tol and abs(np.log1p(case['factor'] * tol)) < 0.5 * tol:
+                        mon.violation('decode-raises', {'decoder': type(dec).__name__, 'deviation': dev, 'tolerance_passed_by_the_caller': tol, 'exception': repr(e)[:200]})
+            mon.mark_nontrivial()
+            return
         if case['how'] == 'float32_large_alphabet':
             mon.count('float32_large_alphabet_guard_checked')
         if dev < 2e-5:
